@@ -451,6 +451,9 @@ def run(ctx: RuleContext, p: Program) -> None:
     ctx.try_rule(rule_view_write, p, 'VIEW-WRITE')
     ctx.try_rule(rule_view_sem, p, 'VIEW-SEM', 3 if ctx.tier == 'quick' else 5)
     ctx.try_rule(rule_view_snapshot, p, 'VIEW-SNAPSHOT')
+    # the raw list is one of the views: it answers as a Python list of its items does (items of equal content included)
+    from . import nodesem as _ns
+    ctx.try_rule(_ns.rule_node_sem, p, 'NODE-SEM', 3 if ctx.tier == 'quick' else 4)
     ctx.try_rule(rule_cache_dep, p, 'CACHE-DEP')
     ctx.try_rule(rule_map_first, p, 'MAP-FIRST')
     from . import idxspace
